@@ -55,6 +55,23 @@ Fixpoint list_diff_g (am : bool) (a b : list kv) : list change :=
        end) b
   end.
 
+(* the diff on decoded rows: a key present on both sides is reported iff the two
+   values decode to different rows (the reported from/to are the stored values) *)
+Fixpoint list_diff_d (dec : val -> N) (a b : list kv) : list change :=
+  match a with
+  | [] => map (fun e => Added (fst e) (snd e)) b
+  | (ka, va) :: a' =>
+    (fix inner (b : list kv) : list change :=
+       match b with
+       | [] => map (fun e => Removed (fst e) (snd e)) a
+       | (kb, vb) :: b' =>
+         if ka <? kb then Removed ka va :: list_diff_d dec a' b
+         else if kb <? ka then Added kb vb :: inner b'
+         else if dec va =? dec vb then list_diff_d dec a' b'
+         else Modified ka va vb :: list_diff_d dec a' b'
+       end) b
+  end.
+
 Definition in_range (lo hi : option key) (k : key) : bool :=
   match lo with None => true | Some l => l <=? k end
   && match hi with None => true | Some h => k <? h end.
@@ -64,3 +81,6 @@ Definition d_range (lo hi : option key) (d : list kv) : list kv :=
 
 Definition range_list_diff (lo hi : option key) (a b : list kv) : list change :=
   list_diff (d_range lo hi a) (d_range lo hi b).
+
+Definition range_list_diff_d (dec : val -> N) (lo hi : option key) (a b : list kv) : list change :=
+  list_diff_d dec (d_range lo hi a) (d_range lo hi b).
